@@ -1,4 +1,4 @@
 From Coq Require Import ExtrOcamlBasic ZArith.
-From MT Require Import Machine.MachineModel.
+From MT Require Import Machine.MachineModel Machine.VictimModel.
 Extraction Language OCaml.
-Separate Extraction BinNums.N BinInt.Z.add BinInt.Z.mul BinInt.Z.opp BinInt.Z.div_eucl minit mmove places parked cur hand dq stat.
+Separate Extraction BinNums.N BinInt.Z.add BinInt.Z.mul BinInt.Z.opp BinInt.Z.div_eucl victim minit mmove places parked cur hand dq stat.
